@@ -390,6 +390,8 @@ func (p *processor) isMatchAnd(conds MatchConditions, event *Event, byPrefix boo
 			if !match {
 				return false
 			}
+			// regexp condition has no value list to check
+			continue
 		}
 
 		match = cond.valueExists(value, byPrefix)
